@@ -1,6 +1,9 @@
 package main
 
 import (
+	"strings"
+	"sync"
+
 	"github.com/DrmagicE/gmqtt/config"
 
 	"verif/harness/props/c04"
@@ -9,17 +12,41 @@ import (
 
 // redisCfg switches a broker configuration to the redis back end on a private fake redis.
 func redisCfg(c *config.Config) (func(), error) {
+	cl, _, err := redisCfgFault(c)
+	return cl, err
+}
+
+// redisCfgFault additionally returns arm(cmd, key): the next command of that name on that key is answered with an
+// error reply and not executed (a redis that refuses one write: OOM, READONLY after a fail-over, ...).
+func redisCfgFault(c *config.Config) (func(), func(cmd, key string), error) {
 	e, err := redisx.NewEnv()
 	if err != nil {
-		return nil, err
+		return nil, nil, err
 	}
 	c.Persistence.Type = config.PersistenceTypeRedis
 	c.Persistence.Redis.Addr = e.Srv.Addr()
-	return e.Close, nil
+	var mu sync.Mutex
+	var wantCmd, wantKey string
+	e.Srv.SetFault(func(pos int, args [][]byte) string {
+		mu.Lock()
+		defer mu.Unlock()
+		if wantCmd != "" && len(args) > 1 && string(args[0]) == wantCmd && string(args[1]) == wantKey {
+			wantCmd = ""
+			return "ERR verif: injected write refusal"
+		}
+		return ""
+	})
+	arm := func(cmd, key string) {
+		mu.Lock()
+		wantCmd, wantKey = strings.ToUpper(cmd), key
+		mu.Unlock()
+	}
+	return e.Close, arm, nil
 }
 
 func init() {
 	c04.RedisCfg = redisCfg
+	c04.RedisCfgFault = redisCfgFault
 	registry["C04"] = entry{run: c04.Run, level: "exploration",
 		rule: "cases = generated packet histories of one publisher over packet ids {1,2,3}: PUBLISH QoS2, retransmission (same id, DUP), PUBREL (also unknown ids), id reuse, QoS1 publishes, connection cut between PUBLISH and PUBREC, reconnects with Clean Start 0/1, v3.1.1/v5, persistent or not, memory and redis unack store, with a concurrent publisher on another session using the same ids; an independent QoS2 subscriber counts deliveries, acks are compared in order behind a PINGREQ barrier. Thorough adds all histories up to length 6 over one id. Non-trivial = at least one retransmission or cut; distinct by scenario.",
 		assumptions: []string{"mqttx codec", "per-connection packets are handled sequentially (PINGREQ barrier)", "fakeredis for the redis unack store"}}
